@@ -950,7 +950,9 @@ func (node *Node) check(ctx context.Context) error {
 				node.state.SetWasInSync()
 			}
 
-			if !node.state.NotifiedSync() {
+			// A block can have been announced since the node got in sync. Then it is not in sync
+			// until that block is processed.
+			if !node.state.NotifiedSync() && node.state.BlockRequestsEmpty() {
 				// TODO Add method to wait for mempool to sync
 				for _, handler := range node.handlers {
 					handler.HandleInSync(ctx)
